@@ -22,7 +22,13 @@ func inFlightTogether(c *gen.Ctx, probes []xeng.Probe, meta *gen.Meta) error {
 			break
 		}
 	}
-	rounds := 80
+	// and small queries with results of different lengths, so that a response holding another request's bytes shows
+	for i, q := range []string{`{ scalar }`, `{ strict }`, `{ a { a1 } }`, `{ a { a2 name } }`, `{ b { b1 name } }`, `{ as { id } }`, `{ nodes { id name } }`,
+		`{ items { name tags } }`, `{ u { __typename } }`, `{ named { name } }`, `{ x: scalar y: strict }`, `{ a { inl inlStrict id } }`, `{ b { other { a1 a2 } } }`,
+		`{ as { kids { id } } }`, `{ node { id name } }`, `{ us { __typename } }`} {
+		batch = append(batch, xeng.Case{ID: 100 + i, Query: "query Op " + q, Oracle: xeng.NewOracle()})
+	}
+	rounds := 150
 	if c.Thorough() {
 		rounds = 1500
 	}
